@@ -728,6 +728,32 @@ func (x *Exec) evalCall(ctx *SpecCtx, e *Expr) Value {
 			specFail("upd() needs an array term in %s", e.String())
 		}
 		return b.Store(a, x.evalInt(ctx, e.Args[1]), x.evalInt(ctx, e.Args[2]))
+	case "state":
+		// state(): the memory as it is now (bind it with "let"/"loop N let", compare with unchanged)
+		need(0)
+		return SnapV{Snap: ctx.st.snapshot()}
+	case "unchanged":
+		// unchanged(S, loc): the location holds what it held in state S
+		need(2)
+		sv, ok := arg(0).(SnapV)
+		if !ok {
+			specFail("unchanged(S, loc): S must be bound to state() in %s", e.String())
+		}
+		var cs []*Term
+		for _, l := range x.evalLoc(ctx, e.Args[1]) {
+			es := arrElem(l.Sort)
+			cur := b.Select(ctx.st.heap(x, l.Heap, l.Sort), l.Obj)
+			old := b.Select(sv.Snap.lookup(x, l.Heap, l.Sort), l.Obj)
+			if l.Lo == nil {
+				cs = append(cs, b.Eq(cur, old))
+				continue
+			}
+			ees := arrElem(es)
+			k := b.Var(fmt.Sprintf("k!uc%d", x.qcount()), SInt)
+			cs = append(cs, b.Forall([]*Term{k}, b.Or(b.Not(b.And(b.Le(l.Lo, k), b.Lt(k, l.Hi))),
+				b.Eq(b.mk("select", ees, "", nil, cur, k), b.mk("select", ees, "", nil, old, k)))))
+		}
+		return b.And(cs...)
 	case "sameobj":
 		need(2)
 		return b.Eq(objOf(arg(0)), objOf(arg(1)))
